@@ -689,7 +689,8 @@ def _quantised(fi, expr, before):
 
 def r07_5(ctx):
     rep, model = ctx.rep, ctx.model
-    rep.rule("R07.5", "every tree search in BrownianInterval.__call__ is guarded by `quantised ta != quantised tb`")
+    rep.rule("R07.5", "every tree search in BrownianInterval.__call__ is guarded by `quantised ta != quantised tb`; every "
+                      "other `_loc(a, b)` request is dominated by a strict `a < b` on values the quantiser leaves unchanged")
     fi = model.func(BI, "BrownianInterval.__call__")
     rep.analysed(fi)
     locs = [c for c in astq.calls(fi) if isinstance(c.func, ast.Attribute) and c.func.attr in ("_loc", "_loc_inner")]
@@ -714,7 +715,54 @@ def r07_5(ctx):
                   f"a query whose end points coincide after rounding to the tolerance reaches the tree search with a "
                   f"zero-length interval (unbounded splitting in dyadic mode)",
                   f"guarded by a comparison of quantised end points: {guards}")
-    ctx.floor("R07.5", 1)
+    # every other tree search / split request in the Brownian classes: `x._loc(a, b)` rounds its arguments, so the strict
+    # ordering a < b that keeps the split point interior must be established on values the rounding leaves unchanged
+    # (a node's stored _start / _end / _midway, or a result of `_round`) -- else the rounded split point can coincide with
+    # an end point: a zero-length child, and a child identical to its parent (the refinement loop never ends)
+    for other in model.funcs_in("torchsde._brownian"):
+        if other is fi or isinstance(other.node, ast.Lambda):
+            continue
+        for c in astq.calls(other):
+            if not (isinstance(c.func, ast.Attribute) and c.func.attr == "_loc" and len(c.args) == 2):
+                continue
+            if other.name in ("_loc", "_loc_inner"):
+                continue
+            a, b = c.args
+            ordered = False
+            for cond, pol, kind in astq.path_conditions(other, c):
+                if not pol or not isinstance(cond, ast.Compare):
+                    continue
+                items = [cond.left] + list(cond.comparators)
+                for x, op, y in zip(items, cond.ops, items[1:]):
+                    lt = (isinstance(op, ast.Lt) and ast.unparse(x) == ast.unparse(a) and ast.unparse(y) == ast.unparse(b)) or \
+                         (isinstance(op, ast.Gt) and ast.unparse(y) == ast.unparse(a) and ast.unparse(x) == ast.unparse(b))
+                    if lt:
+                        ordered = True
+            stable = _round_stable(other, a, c) and _round_stable(other, b, c)
+            rep.check(ordered and stable, "R07.5", astq.loc(other, c), f"{other.key}::R07.5::{astq.digest(c)}",
+                      f"`{ast.unparse(c)}` in {other.qualname}: "
+                      + ("no dominating test `" + ast.unparse(a) + " < " + ast.unparse(b) + "`" if not ordered else
+                         f"the test `{ast.unparse(a)} < {ast.unparse(b)}` is made on a value that `_loc` still rounds "
+                         f"(`{ast.unparse(b if _round_stable(other, a, c) else a)}` is not a stored node time or a result of "
+                         f"_round)")
+                      + ": after rounding to the tolerance the split point can coincide with an end point, giving a "
+                        "zero-length child and a child equal to its parent -- the refinement never terminates",
+                      "strict order established on quantised values")
+    ctx.floor("R07.5", 2)
+
+
+def _round_stable(fi, expr, before):
+    """`expr` is unchanged by the quantiser: a result of `_round`, a stored node time, or a name bound only to such."""
+    if _quantised(fi, expr, before):
+        return True
+    if isinstance(expr, ast.Attribute) and expr.attr in ("_start", "_end", "_midway"):
+        return True
+    if isinstance(expr, ast.Name):
+        binds = [v for st, v in astq.assignments_to(fi, expr.id)]
+        return bool(binds) and all(v is not None and (
+            (isinstance(v, ast.Attribute) and v.attr in ("_start", "_end", "_midway")) or
+            (isinstance(v, ast.Call) and isinstance(v.func, ast.Attribute) and v.func.attr == "_round")) for v in binds)
+    return False
 
 
 # ------------------------------------------------------------------------------------------------ R07.6
